@@ -93,6 +93,9 @@ def handleSeq (j : Json) : Except String Json := do
     let u := usableOf (← getBools oj "usable")
     let th := c.T 0
     let before := th.results.length
+    -- could `next_idle_worker(maybe_acquire=True)` of each pool obtain a worker right now?
+    let obtainable := (List.range pools.length).map fun p =>
+      (pw p).any fun w => isAvailable (c.W w) p && u w
     c := ⟨c.W, upd c.T 0 { th with script := script }⟩
     c := runScriptSeq pw u 100000 c 0
     let th' := c.T 0
@@ -100,7 +103,7 @@ def handleSeq (j : Json) : Except String Json := do
     out := out.push (Json.mkObj ([
       ("results", Json.arr ((th'.results.drop before).map resJson).toArray),
       ("exited", match th'.exited with | none => Json.null | some p => toJson p),
-      ("stuck", Json.bool stuck)] ++ obsJson nw pools.length pw c.W))
+      ("stuck", Json.bool stuck), ("pre_obtainable", toJson obtainable)] ++ obsJson nw pools.length pw c.W))
   return Json.mkObj [("obs", Json.arr out)]
 
 /-! ### schedules and exhaustive exploration -/
